@@ -8,8 +8,8 @@
 //!   cstr valid b<bytes> => 0|1                         (std::str::from_utf8)
 //!   cstr get <which> <cap> x<heap variant text> => b<prefix> <zeros>                 (context buffers, dumped to capacity)
 //!   own run <call,call,…> => ok                        (ghost model: protocol results, registry, no use of an invalid object)
-//!   own mem <call,call,…> => clean|ub                  (the same history under memcheck: exact corpus)
-//!   own memsub <clean|ub> <call,call,…> => ok          (memcheck error ⇒ the model predicted ub; random undisciplined histories)
+//!   own mem <call,call,…> => clean|ub                  (the same history under memcheck: the former F22 witnesses + twins, random histories)
+//!   own memsub <clean|ub> <call,call,…> => ok          (memcheck error ⇒ the model predicted ub; histories with mutations inside the user-phrase enumeration)
 //!
 //! a call is `<exported function>[:arg…][=<result>]`; the model classifies the function with the tables the translator
 //! regenerates from capi/src/io.rs.
@@ -1002,7 +1002,7 @@ fn repo_path() -> String {
     std::env::var("VERIF_REPO").unwrap_or_else(|_| "/repo".into())
 }
 
-/// history line: `<hid> <S|U> <T|B> <M|F<id.id…>> <op,op,…>`   (S = strict snapshot oracles, U = undisciplined family)
+/// history line: `<hid> <S|U> <T|B> <M|F<id.id…>> <op,op,…>`   (S = strict snapshot oracles; U = without them, unused since the F22 fix)
 unsafe fn run_history(line: &str) {
     let f: Vec<&str> = line.split(' ').collect();
     let (hid, fam, dict, user, ops) = (f[0], f[1], f[2], f[3], f.get(4).copied().unwrap_or(""));
@@ -1184,7 +1184,9 @@ fn gen_ops(rng: &mut Rng, disciplined: bool, len: usize) -> Vec<String> {
             17 => {
                 // walk the whole keyboard-type enumeration, mixing the two getter variants
                 new.push("ke".into());
-                for _ in 0..(10 + rng.below(10)) {
+                // now and then far beyond the end (the u8 counter of the earlier code overflowed at the 256th read)
+                let reads = if rng.chance(1, 12) { 258 + rng.below(40) } else { 10 + rng.below(10) };
+                for _ in 0..reads {
                     if rng.chance(1, 2) {
                         new.push("kh".into());
                     }
@@ -1243,7 +1245,9 @@ fn gen_setup(rng: &mut Rng) -> (String, String) {
     (dict.to_string(), user)
 }
 
-/// the witnesses of F22 and their clean twins (exact memcheck corpus): (name, user file, ops, expected)
+/// the former witnesses of F22 (use of the borrowed user-phrase iterator after a mutation; repaired by `fix:
+/// chewing_userphrase_enumerate takes a snapshot …`) and their twins: every one of them must now be clean under
+/// memcheck and satisfy the strict snapshot oracles — a recurrence is reported as `new`.  (name, user file, ops)
 fn witness_corpus() -> Vec<(&'static str, &'static str, &'static str)> {
     let learn = "k:104,k:107,k:52,k:103,k:52,key:2"; // hk4 g4 Enter: commits 測試 => auto-learn => reload of the Trie
     vec![
@@ -1252,6 +1256,10 @@ fn witness_corpus() -> Vec<(&'static str, &'static str, &'static str)> {
         // has_next caches an owned entry: the get after the mutation is served from the cache, the next one is not
         ("w-f22-cached", "F0.3.4", "ue,uh,LEARN,ug,ug"),
         ("w-f22-hasnext", "F0.3.4", "ue,ug,LEARN,uh"),
+        // the other ways to replace the storage under a pending enumeration: add / remove (+ a key: reload), drained to the end
+        ("w-f22-add", "F0.3.4", "ue,ug,ua:5,ua:6,k:104,uh,ug,uh,ug,uh,ug,uh"),
+        ("w-f22-remove", "F0.3.4", "ue,uh,ur:0,ur:3,k:104,ug,uh,ug,uh,ug,uh,ug"),
+        ("w-f22-memory", "M", "ua:1,ua:2,ua:3,ue,ug,ua:4,ur:1,ur:2,ur:3,ug,uh,ug,uh,ug"),
         // clean twins: the mutation happens before the enumeration / the enumeration is restarted after it
         ("w-clean-before", "F0.3.4", "LEARN,ue,ug,uh,ug,uh,ug,uh,ug,uh"),
         ("w-clean-restart", "F0.3.4", "ue,ug,LEARN,ue,uh,ug,uh,ug,uh,ug,uh,ug,uh"),
@@ -1603,20 +1611,20 @@ fn parent_main() {
     copy_records(&mut out, &mut rng, thorough);
     out.flush();
 
-    // ---- 2. native histories (disciplined: the model predicts no use of an invalid object)
+    // ---- 2. native histories (the model predicts no use of an invalid object for ANY call order)
     let n_native = if thorough { 3000 } else { 260 };
     let mut lines = Vec::new();
     for i in 0..n_native {
         let (dict, user) = gen_setup(&mut rng);
         let len = 20 + rng.below(50) as usize;
-        let ops = gen_ops(&mut rng, true, len);
+        // every second history without the protocol discipline: mutations between enumerate and has_next/get (the
+        // enumeration is a snapshot: the strict oracles hold for every call order)
+        let ops = gen_ops(&mut rng, i % 2 == 0, len);
         lines.push(format!("n{} S {} {} {}", i, dict, user, ops.join(",")));
     }
-    // the clean witnesses also run natively with the strict oracles
+    // the former F22 witnesses and their twins also run natively with the strict oracles
     for (name, user, ops) in witness_corpus() {
-        if name.starts_with("w-clean") {
-            lines.push(format!("{} S T {} {}", name, user, ops));
-        }
+        lines.push(format!("{} S T {} {}", name, user, ops));
     }
     // F35: a pre-edit longer than its buffer (word-less syllables shown as their spelling after an engine change)
     {
@@ -1661,7 +1669,7 @@ fn parent_main() {
     }
     out.flush();
 
-    // ---- 3. memcheck: exact corpus (witnesses of F22 + clean twins), disciplined histories, undisciplined histories
+    // ---- 3. memcheck: exact corpus (former witnesses of F22 + twins), random histories, mutations inside the enumeration
     if std::env::var("VERIF_NO_VALGRIND").is_err() {
         let mut mem_lines: Vec<String> = Vec::new();
         let corpus = witness_corpus();
@@ -1669,7 +1677,7 @@ fn parent_main() {
         let mut exact_ub = 0u64;
         let mut exact_clean = 0u64;
         for (name, user, ops) in &corpus {
-            let l = format!("{} U T {} {}", name, user, ops);
+            let l = format!("{} S T {} {}", name, user, ops);
             let o = run_worker(&[l.clone()], true);
             let r = o.results.get(*name).cloned().unwrap_or_default();
             let ub = has_memcheck_error(&r) || !r.ended;
@@ -1681,30 +1689,25 @@ fn parent_main() {
             }
             if ub {
                 exact_ub += 1;
-                if name.starts_with("w-f22") {
-                    out.oracle_fail("C15", "F22-userphrase-iter-stale", &format!(
-                        "memcheck: {} history=[{}]",
-                        r.mem_errors.first().cloned().unwrap_or_else(|| "worker died".into()), l));
-                } else {
-                    out.oracle_fail("C15", "new", &format!("memcheck {} in a history the ownership model calls safe history=[{}]",
-                        r.mem_errors.first().cloned().unwrap_or_else(|| "worker died".into()), l));
-                }
+                out.oracle_fail("C15", "new", &format!("memcheck {} in a history the ownership model calls safe ({}) history=[{}]",
+                    r.mem_errors.first().cloned().unwrap_or_else(|| "worker died".into()),
+                    if name.starts_with("w-f22") { "recurrence of F22: the stored user-phrase iterator is used after the dictionary changed" } else { "twin" }, l));
             } else {
                 exact_clean += 1;
-                if name.starts_with("w-f22") {
-                    out.sample(&format!("witness {} is clean under memcheck on this tree (F22 repaired?)", name));
-                }
+            }
+            for p in &r.problems {
+                out.oracle_fail("C15", "new", &format!("{} (under memcheck) history=[{}]", p, l));
             }
         }
         out.stat("memcheck_exact_ub", exact_ub);
         out.stat("memcheck_exact_clean", exact_clean);
 
-        // disciplined histories under memcheck: must be clean
+        // random histories under memcheck (every second one without the protocol discipline): must be clean
         let n_disc = if thorough { 300 } else { 60 };
         for i in 0..n_disc {
             let (dict, user) = gen_setup(&mut rng);
             let len = 12 + rng.below(30) as usize;
-            let ops = gen_ops(&mut rng, true, len);
+            let ops = gen_ops(&mut rng, i % 2 == 0, len);
             mem_lines.push(format!("m{} S {} {} {}", i, dict, user, ops.join(",")));
         }
         let (mres, mcrashes) = run_all(&mem_lines, true, if thorough { 30 } else { 30 });
@@ -1716,7 +1719,7 @@ fn parent_main() {
                     let ub = has_memcheck_error(r);
                     out.rec(&format!("own mem {} => {}", r.calls, if ub { "ub" } else { "clean" }));
                     if ub {
-                        out.oracle_fail("C15", "new", &format!("memcheck {} in a history without a mutation between enumerate and has_next/get history=[{}]", r.mem_errors[0], l));
+                        out.oracle_fail("C15", "new", &format!("memcheck {} in a history the ownership model calls safe history=[{}]", r.mem_errors[0], l));
                     } else {
                         clean += 1;
                     }
@@ -1734,10 +1737,11 @@ fn parent_main() {
                 out.oracle_fail("C15", "new", &format!("crash worker died under memcheck ({}) stderr=[{}] history=[{}]", status, tail.chars().take(400).collect::<String>(), l));
             }
         }
-        out.stat("memcheck_disciplined_histories", mem_lines.len());
-        out.stat("memcheck_disciplined_clean", clean);
+        out.stat("memcheck_random_histories", mem_lines.len());
+        out.stat("memcheck_random_clean", clean);
 
-        // undisciplined histories (thorough): a memcheck error must have been predicted by the model
+        // mutations inside the user-phrase enumeration (thorough; the shape of the former finding F22): the model predicts
+        // no use of an invalid object, so any memcheck error is a violation
         if thorough {
             let mut predicted_seen = 0u64;
             let mut total = 0u64;
@@ -1748,7 +1752,7 @@ fn parent_main() {
                 let mut ops = gen_ops(&mut rng, false, len);
                 let mut user = user;
                 if i % 2 == 0 {
-                    // structured F22 shape: part of an enumeration, a mutation of some kind, the rest of the enumeration
+                    // structured shape: part of an enumeration, a mutation of some kind, the rest of the enumeration
                     user = if rng.chance(1, 4) { "M".to_string() } else { format!("F{}.{}.{}", rng.below(12), rng.below(12), rng.below(12)) };
                     ops = vec!["ue".to_string()];
                     for _ in 0..rng.below(3) {
@@ -1774,7 +1778,7 @@ fn parent_main() {
                         ops.push((*rng.pick(&["uh", "ug", "ug"])).to_string());
                     }
                 }
-                let l = format!("u{} U T {} {}", i, user, ops.join(","));
+                let l = format!("u{} S T {} {}", i, user, ops.join(","));
                 let o = run_worker(&[l.clone()], true);
                 if let Some(r) = o.results.get(&format!("u{}", i)) {
                     if r.ended {
@@ -1783,13 +1787,19 @@ fn parent_main() {
                         predicted_seen += ub as u64;
                         out.rec(&format!("own memsub {} {} => ok", if ub { "ub" } else { "clean" }, r.calls));
                         if ub {
-                            out.oracle_fail("C15", "F22-userphrase-iter-stale", &format!("memcheck: {} history=[{}]", r.mem_errors[0], l));
+                            out.oracle_fail("C15", "new", &format!("memcheck {} in a history the ownership model calls safe history=[{}]", r.mem_errors[0], l));
                         }
+                        for p in &r.problems {
+                            let class = p.split(' ').nth(1).unwrap_or("new");
+                            out.oracle_fail("C15", if class == "same-overlong" { class } else { "new" }, &format!("{} (under memcheck) history=[{}]", p, l));
+                        }
+                    } else {
+                        out.oracle_fail("C15", "new", &format!("crash worker died under memcheck history=[{}]", l));
                     }
                 }
             }
-            out.stat("memcheck_undisciplined_histories", total);
-            out.stat("memcheck_undisciplined_with_errors", predicted_seen);
+            out.stat("memcheck_mutation_inside_enumeration_histories", total);
+            out.stat("memcheck_mutation_inside_enumeration_with_errors", predicted_seen);
         }
     } else {
         out.stat("memcheck_skipped", 1);
